@@ -150,11 +150,14 @@ func VerifH_C18_rateLimit() {
 	// the count: decimal digits, optional leading '+' (strconv.ParseInt accepts a sign; a
 	// negative count must be refused), at most 2^31-1
 	cb := parts[0]
-	if len(cb) > 0 && cb[0] == '+' {
+	neg := false
+	if len(cb) > 0 && (cb[0] == '+' || cb[0] == '-') {
+		neg = cb[0] == '-'
 		cb = cb[1:]
 	}
 	n, ok := refDecimal(cb, 1<<31-1)
 	verifAssert(ok, "accepted a count that is not a decimal number")
+	verifAssert(!neg || n == 0, "accepted a negative count")
 	verifAssert(uint64(count) == n && count >= 0, "count is not the number written")
 	if len(parts) == 1 {
 		verifAssert(window == time.Second, "no window written: must be one second")
@@ -164,6 +167,35 @@ func VerifH_C18_rateLimit() {
 	// a bare unit ("s", "ms", "m") stands for one unit.
 	w := string(parts[1])
 	if verifKnown("C18-rate-window-leading-dot", len(w) > 0 && w[0] == '.') {
+		verifCover("known-dot-window")
+	}
+	if ref, rerr := time.ParseDuration(w); rerr == nil {
+		verifCover("window-is-duration")
+		verifAssert(window == ref, "window is not the duration written")
+	} else {
+		ref1, rerr1 := time.ParseDuration("1" + w)
+		verifAssert(rerr1 == nil, "accepted a window that is neither a duration nor a unit")
+		verifAssert(window == ref1, "bare unit window is not one unit")
+	}
+	verifAssert(window >= 0, "negative window accepted")
+}
+
+// VerifH_C18_rateWindow: a fixed count and every window string of length LW ("7/" + LW bytes).
+func VerifH_C18_rateWindow() {
+	LW := verifParam("LW", 2)
+	wb := ndBytes("w", LW)
+	for _, c := range wb {
+		verifAssume(c < 0x80 && c != '/')
+	}
+	count, window, err := parseRateLimit("7/" + string(wb))
+	if err != nil {
+		verifCover("rejected")
+		return
+	}
+	verifCover("accepted")
+	verifAssert(count == 7, "count is not the number written")
+	w := string(wb)
+	if verifKnown("C18-rate-window-leading-dot", LW > 0 && wb[0] == '.') {
 		verifCover("known-dot-window")
 	}
 	if ref, rerr := time.ParseDuration(w); rerr == nil {
